@@ -5,11 +5,21 @@
 // over <viewhex> with its cursor set to <cur>; <predef> lists ids registered beforehand
 // (bound to the integer 7*(id%1000)+gen%7).  <dechex> is for the model only (the real decoders run here).
 //
+// view variant:  vw <steps> <prehex> <sufhex> <case as above>
+//   the bytes <prehex> ++ <viewhex> ++ <sufhex> are ONE allocation; <steps> (comma-separated, applied in order,
+//   each to the result of the previous one) restrict it to a view:
+//     R<start>:<size>  RestrictView::new(start, size)      F<start>  RestrictViewFrom::new(start)
+//   The steps are meant to select the window <viewhex>: the harness checks that the view it obtained shows
+//   exactly those bytes (`view-mismatch` otherwise; `view-error` if a step is refused).  ObjStreamP then runs
+//   on that view exactly as on a plain buffer: <cur> and the reported cursor are cursors of the view, member
+//   spans are relative to the content part (/First) of the (decoded) data as before.
+//
 // output: ok [id gen start end sexp]... defs id.gen=sexp|none ... cur <cursor> depth <depth>
 //         err
 use std::rc::Rc;
 
 use parsley_rust::pcore::parsebuffer::{LocatedVal, ParseBuffer, ParseBufferT, ParsleyParser};
+use parsley_rust::pcore::transforms::{BufferTransformT, RestrictView, RestrictViewFrom};
 use parsley_rust::pdf_lib::pdf_obj::{DictP, IndirectT, PDFObjContext, PDFObjT, StreamT};
 use parsley_rust::pdf_lib::pdf_prim::{IntegerT, StreamContentT};
 use parsley_rust::pdf_lib::pdf_streams::ObjStreamP;
@@ -22,6 +32,14 @@ fn run(line: &str) -> String {
         None => line,
     };
     let w: Vec<&str> = head.split_whitespace().collect();
+    let (w, vs): (&[&str], Option<(&str, Vec<u8>, Vec<u8>)>) = if !w.is_empty() && w[0] == "vw" {
+        if w.len() < 5 {
+            return "bad-case".to_string()
+        }
+        (&w[4 ..], Some((w[1], unhex(w[2]), unhex(w[3]))))
+    } else {
+        (&w[..], None)
+    };
     if w.len() != 8 {
         return "bad-case".to_string()
     }
@@ -67,7 +85,13 @@ fn run(line: &str) -> String {
         ctxt.register_obj(&LocatedVal::new(ind, 0, 0));
     }
 
-    let mut pb = ParseBuffer::new(view);
+    let mut pb = match vs {
+        None => ParseBuffer::new(view),
+        Some((steps, pre, suf)) => match restricted(steps, &pre, &view, &suf) {
+            Ok(pb) => pb,
+            Err(e) => return e,
+        },
+    };
     if pb.set_cursor(cur).is_err() {
         return "bad-case".to_string()
     }
@@ -121,6 +145,41 @@ fn run(line: &str) -> String {
             out
         },
     }
+}
+
+// the view selected by the steps in the allocation pre ++ win ++ suf
+fn restricted(steps: &str, pre: &[u8], win: &[u8], suf: &[u8]) -> Result<ParseBuffer, String> {
+    let mut all = pre.to_vec();
+    all.extend_from_slice(win);
+    all.extend_from_slice(suf);
+    let mut pb = ParseBuffer::new(all);
+    for st in steps.split(',') {
+        let r = if let Some(t) = st.strip_prefix('R') {
+            let p: Vec<&str> = t.split(':').collect();
+            if p.len() != 2 {
+                return Err("bad-case".to_string())
+            }
+            match (p[0].parse::<usize>(), p[1].parse::<usize>()) {
+                (Ok(a), Ok(b)) => RestrictView::new(a, b).transform(&pb),
+                _ => return Err("bad-case".to_string()),
+            }
+        } else if let Some(t) = st.strip_prefix('F') {
+            match t.parse::<usize>() {
+                Ok(a) => RestrictViewFrom::new(a).transform(&pb),
+                _ => return Err("bad-case".to_string()),
+            }
+        } else {
+            return Err("bad-case".to_string())
+        };
+        pb = match r {
+            Ok(v) => v,
+            Err(_) => return Err("view-error".to_string()),
+        };
+    }
+    if pb.get_cursor() != 0 || pb.size() != win.len() || pb.buf() != win {
+        return Err("view-mismatch".to_string())
+    }
+    Ok(pb)
 }
 
 fn main() {
